@@ -62,7 +62,7 @@ def c11_markvars(R):
         if name in _EXEMPT:
             R.ok(m, raw, f"{name}: {_EXEMPT[name]}")
             continue
-        fn = tree.func_inlined(MC, f"ModelCacheMixin.{name}")
+        fn = tree.func_inlined(MC, f"ModelCacheMixin.{name}", exclude=("_models_evaluate",))
         supers = [c for c in walk_no_nested(fn) if isinstance(c, ast.Call) and util.is_super_call(c) in ("min", "max")]
         for st in walk_no_nested(fn):
             if not (isinstance(st, ast.Assign) and len(st.targets) == 1 and isinstance(st.targets[0], ast.Subscript) and re.search(r"_exhausted\b", ast.unparse(st.targets[0].value))):
@@ -110,6 +110,38 @@ def c11_markvars(R):
                 construct=f"{name}: exhausted mark for {e}",
             )
     R.need(n >= 3, f"only {n} exhausted marks found")
+    # ... and the evaluability test does what its callers rely on: it asks every cached model (eval_ast) and answers
+    # for a refused division (a handler for the division error that does not just go on to the next model)
+    ev = util.methods_of(cls).get("_models_evaluate")
+    R.need(ev is not None, "ModelCacheMixin._models_evaluate not found")
+    closure = [ev]
+    for c in ast.walk(ev):
+        if isinstance(c, ast.Call) and isinstance(c.func, ast.Attribute) and isinstance(c.func.value, ast.Name) and c.func.value.id in ("self", "cls", "ModelCacheMixin"):
+            h = util.methods_of(cls).get(c.func.attr)
+            if h is not None and h not in closure:
+                closure.append(h)
+    over_models = any(
+        isinstance(x, (ast.For, ast.comprehension)) and re.search(r"\bself\._models\b", ast.unparse(x.iter)) for f in closure for x in ast.walk(f)
+    )
+    answered = False
+    for f in closure:
+        for t in (x for x in ast.walk(f) if isinstance(x, ast.Try)):
+            if not any(isinstance(c, ast.Call) and isinstance(c.func, ast.Attribute) and c.func.attr == "eval_ast" for b in t.body for c in ast.walk(b)):
+                continue
+            for h in t.handlers:
+                names = {x.id if isinstance(x, ast.Name) else x.attr for x in ast.walk(h.type) if isinstance(x, (ast.Name, ast.Attribute))} if h.type is not None else {"Exception"}
+                if names & {"ZeroDivisionError", "ClaripyZeroDivisionError", "ArithmeticError"} and not all(isinstance(b, (ast.Pass, ast.Continue)) for b in h.body):
+                    answered = True
+    R.check(
+        over_models and answered,
+        m,
+        ev,
+        "_models_evaluate asks every cached model and answers for a refused division",
+        "ModelCacheMixin._models_evaluate no longer "
+        + ("goes through self._models" if not over_models else "turns a division by zero raised by a model's eval_ast into an answer")
+        + ": the exhausted marks rely on it to tell whether a lookup in the cached models sees every value of the expression",
+        construct="_models_evaluate: evaluability test",
+    )
 
 
 @rule(
